@@ -841,6 +841,17 @@ def run_check(prop, tier, only, keep, seed):
                     continue
                 rp = native.run(h, w, "dev")
                 rec["replays"] += 1
+                if rp["outcome"] == "witness-exhausted":
+                    # inputs the failure does not depend on are sliced out of the trace: any value
+                    # the assumptions admit will do for them; the padded witness is what is replayed
+                    # (and reported), so the native run still decides
+                    for pad in (0, 1, 2):
+                        w2 = list(w) + [pad] * 32
+                        rp2 = native.run(h, w2, "dev")
+                        rec["replays"] += 1
+                        if rp2["outcome"] not in ("witness-exhausted", "assume-failed"):
+                            w, rp = w2, rp2
+                            break
                 if rp["outcome"] != "panic" or "VERIF_REACH_END" in rp.get("message", ""):
                     rec["inconclusive"].append(
                         "NON-REPRODUCING counterexample for %s (%s): native replay %s"
